@@ -10,6 +10,7 @@ parse tree must equal the model's.
 from __future__ import annotations
 
 import itertools
+import os
 import re
 
 from ..fixtures import close_ctx, new_ctx
@@ -219,7 +220,7 @@ def work(payload, skip, report):
                 if len(got) >= 2:
                     acc.distinct("skeletons", sorted(got.items()))
                 cur = {"input": text, "doc": [list(x) for x in doc], "filler": FILLERS[f]}
-                if out:
+                if out and not os.environ.get("VMC_NO_SETTLE"):   # (the switch exists to exercise the runner's chunk-level replay)
                     # state left behind by an earlier document of this worker?  (see vmc/leak.py)
                     out, leaked = settle(_run_case, cur, recent, out, new_ctx, close_ctx)
                     if leaked is not None:
